@@ -10,3 +10,5 @@ PAIRS = [
 import rg_common
 G = rg_common.pairs()
 PAIRS += [G["queue_append"], G["free_block_delayed_mt"]]
+import page_common as _pc
+PAIRS += _pc.queue_pairs()      # queue surgery: a page moved between queues is in exactly one queue afterwards, neighbours stay linked
